@@ -350,10 +350,12 @@ def rule_pair(P):
                     mv = o.env.get("#moved")
                     if high == 0:
                         want = "all"
+                    elif ign:
+                        want = "all"        # a flush ignores the reader's mark (parameter ignore_wm): be_pair_flush announces EOF right after it (C17)
                     elif dlen < high:
                         want = high - dlen
                     else:
-                        want = "all" if ign else None
+                        want = None
                     r.inst((high, dlen, ign), {"high": high, "dst_input_len": dlen, "flush": ign, "moved": mv})
                     if mv != want and nb < 3:
                         nb += 1
